@@ -579,9 +579,12 @@ Receive(r) ==
   /\ UNCHANGED <<dec, consumed, wire2>>
   /\ Log("Receive", [tag |-> r.tag, kind |-> r.k, wire |-> r.wire], [ok |-> TRUE])
 
+\* is the next thing the caller does a modification of kind w ("pre": still constructing; "post")?
+Pending(w) == IF todo = <<>> THEN FALSE ELSE Head(todo).when = w
+
 \* obj.pack() and len(obj)
 Encode ==
-  /\ phase = "chosen"
+  /\ phase = "chosen" /\ ~Pending("pre")
   /\ LET m == PackCanon(msg)
          w == Wire(m)
      IN /\ msg' = m /\ wire' = w
@@ -602,11 +605,26 @@ Put(x, path, op, v) ==                  \* x is a structure value
              ELSE (IF h.i = 0 THEN Put(old, Tail(path), op, v)
                    ELSE [old EXCEPT ![h.i] = Put(old[h.i], Tail(path), op, v)])
   IN [x EXCEPT !.f = [x.f EXCEPT ![h.f] = new]]
+\* op = "setf": several fields of the structure at the path are written at once (value, or <<>> = None for a
+\* match field); an empty path is the object itself.  The last write wins, whatever was there before.
+RECURSIVE PutF(_, _, _)
+PutF(x, path, fields) ==
+  IF path = <<>> THEN [x EXCEPT !.f = fields @@ x.f]
+  ELSE LET h == Head(path)
+           old == x.f[h.f]
+           new == IF h.i = 0 THEN PutF(old, Tail(path), fields)
+                  ELSE [old EXCEPT ![h.i] = PutF(old[h.i], Tail(path), fields)]
+       IN [x EXCEPT !.f = [x.f EXCEPT ![h.f] = new]]
+\* A modification carries `when`: "pre" = part of the construction history (before the first encoding),
+\* "post" = after the object has been encoded (pack - mutate - pack); `form` names the spelling the caller
+\* uses (attribute, (addr, bits) tuple, CIDR text, set_nw_* method, direct wildcards assignment): the value of
+\* the object, hence its encoding, depends only on what was written last, never on the spelling or the order.
 Modify ==
-  /\ phase = "encoded" /\ todo # <<>>
+  /\ todo # <<>>
+  /\ (IF Head(todo).when = "pre" THEN phase = "chosen" ELSE phase = "encoded")
   /\ LET m == Head(todo) IN
-       /\ msg' = Put(msg, m.path, m.op, m.v)
-       /\ Log("Modify", [path |-> m.path, op |-> m.op, v |-> m.v], [ok |-> TRUE])
+       /\ msg' = IF m.op = "setf" THEN PutF(msg, m.path, m.v) ELSE Put(msg, m.path, m.op, m.v)
+       /\ Log("Modify", [path |-> m.path, op |-> m.op, v |-> m.v, when |-> m.when, form |-> m.form], [ok |-> TRUE])
   /\ phase' = "chosen" /\ todo' = Tail(todo)
   /\ UNCHANGED <<wire, dec, consumed, wire2, rx>>
 
@@ -649,7 +667,7 @@ Spec == Init /\ [][Next]_vars
 (* Each invariant is stated for the phase in which the variables it reads were last written (the later  *)
 (* phases leave them UNCHANGED), which keeps TLC from re-encoding the same object in every state.       *)
 TypeOK == /\ phase \in {"idle", "chosen", "encoded", "decoded", "done"}
-          /\ (phase = "chosen" => WF(msg) /\ Constructible(msg))
+          /\ (phase = "chosen" /\ ~Pending("pre") => WF(msg) /\ Constructible(msg))
           /\ (phase = "encoded" /\ rx # "" => WF(msg) /\ Receivable(msg))
           /\ (phase = "encoded" => IsBytes(wire))
           /\ (phase = "done" => IsBytes(wire2))
@@ -676,7 +694,7 @@ RECURSIVE Aligned(_)
 Aligned(sv) ==
   /\ (sv.k \in ActionKinds \cup PropKinds \cup {"packet_queue"} => SizeOf(sv) % 8 = 0)
   /\ AllSubs(sv, Aligned)
-Mult8 == phase = "chosen" => Aligned(msg)
+Mult8 == phase = "chosen" /\ ~Pending("pre") => Aligned(msg)
 
 \* ---- export for the replay harness
 Export == (phase = "done") => PrintT(<<"H", ToJson(hist)>>)
